@@ -11,6 +11,11 @@
 //
 // op:   call <p|s> sf=<0|1> P=<nodes> F=<nodes|-> ev=<events|->       (see lean/Driver/Provide.lean)
 // out:  <result> n=<events consumed> fb=<0|1>
+//
+// op:   proxy <GET|POST> body=<body> P=<nodes> F=<nodes|-> ev=<events|->   (proxy.go: the real multi.Proxy over
+//       the same scripted clients, lock-step driven in the same way)
+// op:   http <ver|sub|pxy> to=<ms> P=<kinds> F=<kinds|-> cancel=<ms|-> uses=<1|2>   (lazyhttp.go: the real
+//       NewMultiHTTP / lazy / go-eth2-client http path against loopback servers; wall-clock monitors)
 package main
 
 import (
@@ -76,6 +81,11 @@ type node struct {
 	arrived bool
 	exited  chan struct{}
 	call    *call
+
+	// proxy ops (proxy.go): what the node's Proxy method was handed; reject: the request did not carry
+	// the original body, the node answers 400 instead of a scripted success
+	got    *gotReq
+	reject bool
 }
 
 func (n *node) Address() string { return fmt.Sprintf("http://%s%d", grp(n.fb), n.id) }
@@ -141,6 +151,10 @@ func mkErr(cls string, variant int) error {
 func (n *node) result() (output, error) {
 	switch n.cls {
 	case "ok":
+		if n.reject {
+			return output{}, &nodeErr{fb: n.fb, id: n.id, err: &eth2api.Error{Method: "POST", Endpoint: "/x", StatusCode: http.StatusBadRequest, Data: []byte("invalid body")}}
+		}
+
 		return output{set: true, fb: n.fb, id: n.id, ok: true}, nil
 	case "nk":
 		return output{set: true, fb: n.fb, id: n.id, ok: false}, nil
@@ -172,6 +186,7 @@ type result struct {
 
 type call struct {
 	arrive chan *node
+	px     *proxyCall // proxy ops only
 }
 
 func (c *call) work(ctx context.Context, cl eth2wrap.Client) (output, error) {
@@ -278,7 +293,15 @@ func doCall(run *hx.Run, op string) string {
 			}
 		}
 	}
-	c := &call{arrive: make(chan *node, 16)}
+
+	return runScenario(run, op, style, sf, prim, fbs, evs, nil)
+}
+
+// runScenario drives one call in lock-step: style p/s = the generic provide/submit, style x = the real
+// multi.Proxy (px describes the request; see proxy.go).
+func runScenario(run *hx.Run, op string, style string, sf bool, prim, fbs []*node, evs []event, px *proxyCall) string {
+	submit := style == "s"
+	c := &call{arrive: make(chan *node, 16), px: px}
 	for _, n := range prim {
 		n.call = c
 	}
@@ -298,6 +321,12 @@ func doCall(run *hx.Run, op string) string {
 	spy := &spyCtx{Context: inner, sig: make(chan struct{}, 256)}
 	done := make(chan result, 1)
 	go func() {
+		if px != nil {
+			o, err := px.invoke(spy, toClients(prim), toClients(fbs))
+			done <- result{out: o, err: err}
+
+			return
+		}
 		if submit {
 			err := eth2wrap.VerifSubmit(spy, toClients(prim), toClients(fbs), func(ctx context.Context, cl eth2wrap.Client) error {
 				_, err := c.work(ctx, cl)
@@ -329,12 +358,18 @@ func doCall(run *hx.Run, op string) string {
 		lastFail    *node // last failure of the primaries
 		allPrimFail bool
 	)
-	isSuccessNode := func(n *node) bool { return n.cls == "ok" || (n.cls == "nk" && !sf) }
+	isSuccessNode := func(n *node) bool { return (n.cls == "ok" && !n.reject) || (n.cls == "nk" && !sf) }
+	var scriptOK *node // first node scripted to succeed that completed while the call was live
 	waitArrivals := func(k int, already int) bool {
 		for j := already; j < k; j++ {
 			select {
 			case n := <-c.arrive:
 				n.arrived = true
+				px.arrived(run, op, n)
+			case r := <-done:
+				// the call has returned although not every node of the group was queried
+				res, returned = r, true
+				return true
 			case <-timeoutC():
 				return false
 			}
@@ -354,7 +389,7 @@ func doCall(run *hx.Run, op string) string {
 	for i := range prim {
 		pending[i] = true
 	}
-	if len(prim) == 0 {
+	if len(prim) == 0 || px.returnsBeforeNodes() {
 		if !waitDone() {
 			late = "no_return_without_nodes"
 		}
@@ -394,6 +429,9 @@ func doCall(run *hx.Run, op string) string {
 		delete(pending, ev.i)
 		n.relDone = true
 		// monitor bookkeeping (before anything can race with the call returning)
+		if !cancelled && n.cls == "ok" && scriptOK == nil {
+			scriptOK = n
+		}
 		switch {
 		case cancelled:
 		case isSuccessNode(n):
@@ -453,6 +491,7 @@ func doCall(run *hx.Run, op string) string {
 					returned = true
 				case fn := <-c.arrive:
 					fn.arrived = true
+					px.arrived(run, op, fn)
 					if stage || !fn.fb {
 						violate(run, "provide:unexpected_query", "a node was queried again: "+op)
 					}
@@ -531,9 +570,17 @@ func doCall(run *hx.Run, op string) string {
 		for _, n := range append(append([]*node{}, prim...), fbs...) {
 			if n.fb == ne.fb && n.id == ne.id {
 				cls = n.cls
+				if n.reject {
+					cls = "rej"
+				}
 			}
 		}
 		rs = fmt.Sprintf("err:%s%d:%s", grp(ne.fb), ne.id, cls)
+	case errors.Is(res.err, errPanicked):
+		rs = "panic"
+		violate(run, "provide:proxy_panicked", fmt.Sprintf("%v: %s", res.err, op))
+	case px != nil && strings.Contains(res.err.Error(), "read request body"):
+		rs = "rderr"
 	case errors.Is(res.err, context.Canceled):
 		rs = "ctx"
 	case strings.Contains(res.err.Error(), "bug: no forkjoin results"):
@@ -558,7 +605,7 @@ func doCall(run *hx.Run, op string) string {
 		if ne != nil && !ne.fb && len(pending) > 0 && !stage {
 			violate(run, "provide:error_before_all_primaries_failed", fmt.Sprintf("the call returned a primary's error while %d primaries were pending: %s", len(pending), op))
 		}
-		if res.err != nil && ne == nil && !cancelled && rs != "bug" {
+		if res.err != nil && ne == nil && !cancelled && rs != "bug" && rs != "rderr" && rs != "panic" {
 			violate(run, "provide:unexpected_error", fmt.Sprintf("%v: %s", res.err, op))
 		}
 		if errors.Is(res.err, context.Canceled) && ne == nil && !cancelled {
@@ -606,7 +653,7 @@ func doCall(run *hx.Run, op string) string {
 	for _, n := range fbs {
 		classes += n.cls
 	}
-	run.Case(fmt.Sprintf("%s:%s:%s:%d", style, classes, strings.SplitN(rs, ":", 2)[0], consumed))
+	run.Case(fmt.Sprintf("%s%s:%s:%s:%d", style, px.caseKey(), classes, strings.SplitN(rs, ":", 2)[0], consumed))
 	fbFlag := 0
 	if usedFb {
 		fbFlag = 1
@@ -620,6 +667,10 @@ func doCall(run *hx.Run, op string) string {
 				panic("worker never exited: " + op)
 			}
 		}
+	}
+
+	if px != nil {
+		return fmt.Sprintf("%s n=%d fb=%d %s", rs, consumed, fbFlag, px.finish(run, op, rs, scriptOK, prim, fbs, stuck || late != ""))
 	}
 
 	return fmt.Sprintf("%s n=%d fb=%d", rs, consumed, fbFlag)
@@ -699,7 +750,17 @@ func main() {
 	hx.Must(log.InitLogger(log.Config{Level: "error", Format: "console", Color: "disable"}))
 	run := hx.NewRun(a.Dir)
 	defer run.Close()
-	exec := func(op string) { run.Op(op, doCall(run, op)) }
+	exec := func(op string) {
+		run.Begin(op)
+		switch {
+		case strings.HasPrefix(op, "proxy "):
+			run.Op(op, doProxy(run, op))
+		case strings.HasPrefix(op, "http "):
+			run.Op(op, doHTTP(run, op))
+		default:
+			run.Op(op, doCall(run, op))
+		}
+	}
 	if a.Mode == "exec" {
 		for _, op := range hx.ReadOps(a.Ops) {
 			exec(op)
@@ -708,6 +769,10 @@ func main() {
 		return
 	}
 	rng := hx.NewRng(a.Seed)
+	// H. the real lazy / http client path against loopback servers (few ops: they take wall-clock time)
+	for _, op := range httpOps(rng) {
+		exec(op)
+	}
 	// A. full cross product of outcome classes and completion orders for small sizes
 	sizes := [][2]int{{1, 0}, {1, 1}, {2, 0}, {2, 1}, {1, 2}, {3, 0}}
 	for _, sz := range sizes {
@@ -744,12 +809,50 @@ func main() {
 			}
 		}
 	}
+	// A'. the same cross product (without rejected outputs: Proxy has no isSuccessFunc) through multi.Proxy,
+	// each scenario with some request body
+	pclasses := []string{"ok", "to", "sy", "bg", "er"}
+	for _, sz := range sizes {
+		nP, nF := sz[0], sz[1]
+		total := 1
+		for i := 0; i < nP+nF; i++ {
+			total *= len(pclasses)
+		}
+		for code := 0; code < total && run.NOps < a.N && nWatchdog < 5; code++ {
+			cs := make([]string, nP+nF)
+			x := code
+			for i := range cs {
+				cs[i] = pclasses[x%len(pclasses)]
+				x /= len(pclasses)
+			}
+			for _, po := range permutations(nP) {
+				for _, fo := range permutations(nF) {
+					var ps, fs, ev []string
+					for i := 0; i < nP; i++ {
+						ps = append(ps, nodeTok(cs[i], rng.Intn(10), rng.Chance(2, 3)))
+					}
+					for i := 0; i < nF; i++ {
+						fs = append(fs, nodeTok(cs[nP+i], rng.Intn(10), rng.Chance(2, 3)))
+					}
+					for _, i := range po {
+						ev = append(ev, fmt.Sprintf("p%d", i))
+					}
+					for _, i := range fo {
+						ev = append(ev, fmt.Sprintf("f%d", i))
+					}
+					ev = append(ev, tail(rng, nP, nF)...)
+					exec(fmt.Sprintf("proxy %s body=%s P=%s F=%s ev=%s", randMethod(rng), randBody(rng), join(ps), join(fs), join(ev)))
+				}
+			}
+		}
+	}
 	// B. random scenarios: up to 4 primaries and 3 fallbacks, hung nodes, cancellation, repeated
 	// and out-of-stage completions, submit style, no isSuccessFunc
 	for run.NOps < a.N && nWatchdog < 5 {
 		nP, nF := 1+rng.Intn(4), rng.Intn(4)
-		submit := rng.Chance(1, 3)
-		sf := !submit && rng.Chance(3, 4)
+		proxy := rng.Chance(1, 4)
+		submit := !proxy && rng.Chance(1, 3)
+		sf := !submit && !proxy && rng.Chance(3, 4)
 		pick := func(primary bool) string {
 			for {
 				var c string
@@ -767,7 +870,7 @@ func main() {
 				default:
 					c = "er"
 				}
-				if submit && c == "nk" {
+				if (submit || proxy) && c == "nk" {
 					continue
 				}
 				// all-fail primaries are the interesting case for fallbacks
@@ -815,6 +918,14 @@ func main() {
 			ev = append(ev[:pos], append([]string{"x"}, ev[pos:]...)...)
 		}
 		ev = append(ev, tail(rng, nP, nF)...)
+		if proxy {
+			if rng.Chance(1, 40) {
+				ps = nil // no primaries: "bug: no forkjoin results"
+			}
+			exec(fmt.Sprintf("proxy %s body=%s P=%s F=%s ev=%s", randMethod(rng), randBody(rng), join(ps), join(fs), join(ev)))
+
+			continue
+		}
 		st := "p"
 		if submit {
 			st = "s"
